@@ -5,21 +5,31 @@ case = {"paras": [{"fields":   [[name, [first, [cont, ...]]], ...],
                                                      (pos is taken modulo number of lines + 1)
                    "armor":    null | {"headers": [...], "sig_headers": [...], "sig": [...],
                                        "gap": bool, "trail": blanks}}, ...],
-        "layout": {"lead": n,               empty lines before the first paragraph
-                   "lead_free": [text...],  free-standing comment block + empty line at the very start
+        "layout": {"lead": n,               blank lines before the first paragraph
+                   "lead_free": [text...],  free-standing comment block + blank line at the very start
                    "seps": [{"blank": n>=1, "free": [text...], "blank2": n>=1}, ...],
                                             separator before paragraph i>0 is seps[(i-1) % len]:
-                                            n empty lines [+ comment block + n empty lines]
-                   "trail": n,              extra empty lines at the end
+                                            n blank lines [+ comment block + n blank lines]
+                   "trail": n,              extra blank lines at the end
                    "final_newline": bool,
-                   "files": bool}}          (optional) also read through real text/binary files
+                   "ws": [blanks, ...],     (optional) the k-th blank line of the layout is
+                                            ws[k % len]: empty or SPACE/TAB only; default: all empty
+                   "files": bool,           (optional) also read through real text/binary files
+                   "codecs": [codec, ...]}} (optional) also read through text-mode file objects with
+                                            these codecs (skipped if the codec cannot express the text)
+   or  {"kind": "aligned", "unit": u, "n": paragraphs, "target": place, "measure": "bytes"|"chars",
+        "codecs": [...]}                    a big plain document, see "big documents" below
 
 Every paragraph is built by assignment into an empty ``Deb822`` and dumped.  Two documents are
 assembled from the dumps: the *plain* one (dumps joined by one empty line) and the *full* one
 (the case's layout, comment lines and clearsign armor all applied).  Each document is presented
-in eight input forms to ``Deb822.iter_paragraphs`` and, if it has one paragraph, to the
-constructors of ``Deb822``, ``Dsc`` and ``Changes``.  Every reading must give the generated
-``[name, first.strip(blanks) + continuation lines verbatim]`` lists, in order, without a warning.
+in eight input forms (plus real files, plus text-mode file objects in other codecs) to
+``Deb822.iter_paragraphs`` and, if it has one paragraph, to the constructors of ``Deb822``,
+``Dsc`` and ``Changes``.  Every file-object form is also handed over *advanced*: the lines before
+the first paragraph, or everything up to the gap before the last paragraph, already taken with
+``readline()``; the reader must then find the remaining paragraphs.  Every reading must give the
+generated ``[name, first.strip(blanks) + continuation lines verbatim]`` lists, in order, without a
+warning.
 """
 import io
 import itertools
@@ -42,29 +52,59 @@ RULE = ("a case is a document of 1..4 paragraphs x 1..5 fields (Policy-valid nam
         "case; values = first line of printable text/TAB with any blanks around it + 0..3 continuation "
         "lines starting with a blank and holding non-blank text) plus a configuration: comment lines at "
         "chosen or at all line boundaries, free-standing comment blocks between paragraphs, synthetic "
-        "clearsign armor per paragraph, leading/trailing/multiple empty lines, final newline or not; "
+        "clearsign armor per paragraph, leading/trailing/multiple blank lines (in half of the cases some of "
+        "them hold SPACE/TAB), final newline or not; "
         "each case is read plain and fully configured in 8 input forms (str, bytes, list of lines with "
         "and without newline, list of bytes lines, StringIO, BytesIO, TextIOWrapper) by iter_paragraphs "
         "and, for one paragraph, by Deb822/Dsc/Changes constructors (one case in eight also through real "
-        "text and binary files); what was read is dumped and read once more. Enumerated: 21 boundary first "
+        "text and binary files; eight in eleven also through a text-mode file object in UTF-16/-32, UTF-8 "
+        "with BOM, ISO-8859-1/-15 or cp1252); each file object is also handed over after readline() has "
+        "taken the leading lines or all paragraphs but the last; what was read is dumped and read once "
+        "more. Enumerated: 21 boundary first "
         "lines x all sequences of 0..2 of 16 boundary continuation lines, commented at every line boundary "
-        "and armored; every legal field-name character in first and later position. Non-trivial = at least one multi-line value or at least two paragraphs; distinct = "
+        "and armored; every legal field-name character in first and later position; every gap layout of "
+        "0..2 leading and 1..3 separating lines from {empty, SPACE, TAB}, plain and clearsigned; big documents "
+        "(140 KiB - 1 MiB) whose line ends, separator lines, line middles or character middles lie on every "
+        "multiple of 4096 / 1024 (thorough: also 1000, 5000, 8192) bytes or characters, read in all forms "
+        "including real files and a UTF-16 text file. "
+        "Non-trivial = at least one multi-line value or at least two paragraphs; distinct = "
         "distinct canonical JSON of the case")
 ASSUMPTIONS = [
     "expected values are computed from the generated data only: first line stripped of SPACE/TAB, "
     "continuation lines verbatim (no model of the parser)",
     "documents are assembled by the harness from the library's own dump() of each paragraph, split at "
-    "LF; comment lines, armor and empty lines are inserted between those lines",
+    "LF; comment lines, armor and blank lines are inserted between those lines",
     "clearsign armor is synthetic (no signature is made or verified); field and continuation lines never "
     "start with '-', so no dash-escaping is involved",
     "Dsc/Changes readers are not applied when the document starts with a free-standing comment block "
     "(observed: Dsc(lines) then returns an empty paragraph - outside the stated configurations)",
+    "lines made of SPACE/TAB only count as blank lines between, before and after paragraphs (class "
+    "documentation of Deb822: 'whitespace-separates-paragraphs', default True); they are only put into the "
+    "gaps of the layout, never inside a clearsigned payload or between armor headers and payload",
+    "text-mode file objects in a codec other than UTF-8 are given to iter_paragraphs and Deb822 as they are; "
+    "Dsc/Changes get them only for single-byte codecs and together with encoding=<that codec> (observed on "
+    "the unchanged tree: _gpg_multivalued re-encodes every line with the file's codec and decodes with the "
+    "encoding argument, default UTF-8, so Dsc(open(p, encoding='iso-8859-15')) mis-decodes and a UTF-16 file "
+    "cannot work at all - reported, not asserted)",
+    "a file object from which k lines have been taken with readline() stands at line k (io module semantics); "
+    "the reader is expected to go on from there",
+    "the geometry of the big documents (which offset a line end falls on) is computed assuming that dump() "
+    "writes 'Name: value' lines; the label 'aligned:...' is only given when the assembled document really has "
+    "the chosen place on every multiple of the unit (else 'alignment-lost'); the expected reading does not depend on it",
     "Hypothesis 6.168 generators; sha1 for distinctness",
 ]
 _EXH = ("21 boundary first lines x every sequence of 0..2 continuation lines from 16 boundary lines "
         "(5 733 values) in a two-field paragraph, comments at every line boundary, armored; every legal "
         "first character of a field name (91) and every legal later character (93) in small documents")
-EXHAUSTIVE = {"quick": _EXH, "thorough": _EXH}
+_EXH_GAPS = ("every gap layout of a two-paragraph document with 0..2 leading and 1..3 separating blank lines, "
+             "each line empty, one SPACE or one TAB (13 x 39), plain and clearsigned; one paragraph with 1..2 "
+             "such leading and 2 trailing lines (12 x 9), plain and clearsigned")
+_EXH_BIG = ("documents of 36 paragraphs x 4096 and of 140 paragraphs x 1024 bytes (or characters) in which every "
+            "multiple of that unit lies at one of 8 chosen places of a paragraph (behind the separator line, behind "
+            "the first field, behind the first line of a multi-line value, between and behind continuation lines, "
+            "behind the last field, inside a line, inside a 4-byte character): 30 documents of 140-144 KiB")
+_EXH_BIG_T = _EXH_BIG + "; the same for units of 1000 and 5000 (140-150 KiB) and 8192 (1 MiB): 75 documents"
+EXHAUSTIVE = {"quick": "; ".join([_EXH, _EXH_GAPS, _EXH_BIG]), "thorough": "; ".join([_EXH, _EXH_GAPS, _EXH_BIG_T])}
 BUDGET = {"quick": 200, "thorough": 1500}
 
 BEGIN_MSG = "-----BEGIN PGP SIGNED MESSAGE-----"
@@ -74,6 +114,9 @@ ARMOR_HEADERS = ["Hash: SHA1", "Hash: SHA256", "Hash: SHA512", "Charset: UTF-8",
                  "NotDashEscaped: You need GnuPG to verify this message"]
 SIG_HEADERS = ["Version: GnuPG v1.4.3 (GNU/Linux)", "Comment: Signed by Adeodato Simó <dato@net.com.org.es>",
                "Comment: a: b"]
+# codecs of text-mode file objects (besides UTF-8); the single-byte ones cannot express every document
+CODECS = ["utf-16", "utf-16-le", "utf-16-be", "utf-32", "utf-8-sig", "iso-8859-15", "cp1252", "iso-8859-1"]
+SINGLE_BYTE = frozenset(["iso-8859-15", "cp1252", "iso-8859-1"])
 _header_re = re.compile(r"^[A-Za-z]+: \S.*$")
 _b64_re = re.compile(r"^[A-Za-z0-9+/=]+$")
 
@@ -117,9 +160,105 @@ def valid_case(case):
             and isinstance(lay.get("final_newline"), bool) and _comment_texts(lay.get("lead_free"))
             and isinstance(lay.get("seps"), list) and isinstance(lay.get("files", False), bool)):
         return False
+    ws = lay.get("ws", [])
+    if not (isinstance(ws, list) and len(ws) <= 32
+            and all(isinstance(b, str) and len(b) <= 8 and b.strip(G.BLANKS) == "" for b in ws)):
+        return False
+    codecs = lay.get("codecs", [])
+    if not (isinstance(codecs, list) and all(isinstance(c, str) and c in CODECS for c in codecs)):
+        return False
     for s in lay["seps"]:
         if not (isinstance(s, dict) and _is_int(s.get("blank"), 1, 5) and _is_int(s.get("blank2"), 1, 5)
                 and _comment_texts(s.get("free"))):
+            return False
+    return True
+
+
+# ------------------------------------------------------------------------------------------
+# big documents with line ends at chosen offsets
+#
+# case = {"kind": "aligned", "unit": u, "n": paragraphs, "target": one of ALIGN_TARGETS,
+#         "measure": "bytes" | "chars", "codecs": [...]}
+# stands for the plain document of n four-field paragraphs in which a padding value makes every
+# paragraph plus its separator line exactly u bytes (or characters) long and the first paragraph is
+# shortened so that, from the second paragraph on, the chosen place of *every* paragraph lies on a
+# multiple of u.  A reader that works on blocks of u * 2^k has each of its block boundaries there.
+
+ALIGN_TARGETS = ["after-separator", "after-first-field", "after-first-line-of-multi-line-value",
+                 "between-continuation-lines", "after-last-continuation-line", "after-last-field",
+                 "mid-line", "mid-character"]
+_ALIGN_CONT = [" continuation \u6f22 one", "\tcontinuation two "]
+
+
+def _aligned_fields(i, padlen):
+    return [["Package", ["pkg-%04d" % i, []]],
+            ["Pad", ["x" * padlen, []]],
+            ["Description", ["\xe9 short", list(_ALIGN_CONT)]],
+            ["Tail", ["\U0001d4b3 %04d" % i, []]]]
+
+
+def _aligned_geometry(spec):
+    """(pad length of the first paragraph, of the others) or None if the unit is too small."""
+    size = (lambda t: len(t.encode("utf-8"))) if spec["measure"] == "bytes" else len
+    # the lines "Name: value" a paragraph is expected to be dumped as (only the alignment, not
+    # the expected reading, depends on this)
+    lines = ["%s: %s" % (n, G.value_string(v)) for n, v in _aligned_fields(0, 0)]
+    lines = [l for f in lines for l in f.split("\n")]            # 6 lines: 0 Package 1 Pad 2 Description 3,4 cont 5 Tail
+    upto = [0]
+    for l in lines:
+        upto.append(upto[-1] + size(l) + 1)
+    fixed = upto[-1] + 1                                         # + the separator line
+    unit = spec["unit"]
+    pad = unit - fixed
+    if pad < 1:
+        return None
+    off = {"after-separator": 0, "after-first-field": upto[1], "mid-line": upto[1] + 5 + pad // 2,
+           "after-first-line-of-multi-line-value": upto[3] + pad, "between-continuation-lines": upto[4] + pad,
+           "after-last-continuation-line": upto[5] + pad, "after-last-field": upto[6] + pad,
+           "mid-character": upto[5] + pad + 6 + 2}[spec["target"]]
+    pad0 = (-off) % unit - fixed
+    while pad0 < 1:
+        pad0 += unit
+    return pad0, pad
+
+
+def valid_aligned(spec):
+    return (_is_int(spec.get("unit"), 128, 1 << 20) and _is_int(spec.get("n"), 2, 2000)
+            and spec["unit"] * spec["n"] <= 1 << 21 and spec.get("target") in ALIGN_TARGETS
+            and spec.get("measure") in ("bytes", "chars")
+            and not (spec["measure"] == "chars" and spec["target"] == "mid-character")
+            and isinstance(spec.get("codecs", []), list) and all(c in CODECS for c in spec.get("codecs", []))
+            and _aligned_geometry(spec) is not None)
+
+
+def expand_aligned(spec):
+    pad0, pad = _aligned_geometry(spec)
+    paras = [{"fields": _aligned_fields(i, pad if i else pad0), "comments": [], "armor": None}
+             for i in range(spec["n"])]
+    return {"paras": paras, "layout": dict(PLAIN_LAYOUT, files=True, codecs=list(spec.get("codecs", [])))}
+
+
+def aligned_as_specified(spec, text):
+    """Does the assembled document really have the chosen place on every multiple of the unit?"""
+    data = text.encode("utf-8") if spec["measure"] == "bytes" else text
+    nl, unit = ("\n".encode() if spec["measure"] == "bytes" else "\n"), spec["unit"]
+    marks = list(range(2 * unit, len(data), unit))
+    if not marks:
+        return False
+    t = spec["target"]
+    for m in marks:
+        before, after = data[m - 1:m], data[m:m + 1]
+        if t in ("mid-line", "mid-character"):
+            ok = before != nl and after != nl
+            if t == "mid-character":
+                ok = ok and (data[m] & 0xC0) == 0x80
+        elif t == "after-separator":
+            ok = data[m - 2:m] == nl + nl
+        elif t == "after-last-field":
+            ok = before == nl and after == nl
+        else:
+            ok = before == nl and after != nl and data[m - 2:m - 1] != nl
+        if not ok:
             return False
     return True
 
@@ -149,27 +288,47 @@ def _wrap(payload, a):
 
 
 def assemble(case, para_lines, layout=True, comments=True, armor=True):
-    """(list of lines without terminators, final newline?) for the chosen features."""
+    """(list of lines without terminators, final newline?, cuts) for the chosen features.
+
+    ``cuts`` lists ``(k, skipped)``: a reader that is handed the document from line k on (a file
+    object from which k lines have been taken with readline()) has to find paragraphs[skipped:].
+    """
     lay = case["layout"]
+    ws = lay.get("ws") or [""]
+    used = [0]
+
+    def blanks(n):
+        # the k-th blank line the layout inserts is ws[k % len(ws)]: empty or SPACE/TAB only
+        if not layout:
+            return [""] * n
+        out = [ws[(used[0] + j) % len(ws)] for j in range(n)]
+        used[0] += n
+        return out
+
     doc = []
+    cuts = []
     if layout:
-        doc += [""] * lay["lead"]
+        doc += blanks(lay["lead"])
     if comments and lay["lead_free"]:
-        doc += ["#" + t for t in lay["lead_free"]] + [""]
+        doc += ["#" + t for t in lay["lead_free"]] + blanks(1)
+    if doc:
+        cuts.append((len(doc), 0))
     for i, p in enumerate(case["paras"]):
         if i > 0:
+            if i == len(case["paras"]) - 1:
+                cuts.append((len(doc), i))
             sep = lay["seps"][(i - 1) % len(lay["seps"])] if lay["seps"] else None
-            doc += [""] * (sep["blank"] if (sep and layout) else 1)
+            doc += blanks(sep["blank"] if (sep and layout) else 1)
             if sep and comments and sep["free"]:
-                doc += ["#" + t for t in sep["free"]] + [""] * (sep["blank2"] if layout else 1)
+                doc += ["#" + t for t in sep["free"]] + blanks(sep["blank2"] if layout else 1)
         pl = _interleave(para_lines[i], p["comments"]) if comments else list(para_lines[i])
         if armor and p["armor"] is not None:
             pl = _wrap(pl, p["armor"])
         doc += pl
     final_newline = lay["final_newline"] if layout else True
     if layout and final_newline:
-        doc += [""] * lay["trail"]
-    return doc, final_newline
+        doc += blanks(lay["trail"])
+    return doc, final_newline, cuts
 
 
 class TmpFiles(object):
@@ -190,8 +349,8 @@ class TmpFiles(object):
             f.write(raw)
         return path
 
-    def open(self, path, binary):
-        f = open(path, "rb") if binary else open(path, "r", encoding="utf-8")
+    def open(self, path, binary, codec="utf-8"):
+        f = open(path, "rb") if binary else open(path, "r", encoding=codec)
         self.opened.append(f)
         return f
 
@@ -203,7 +362,8 @@ class TmpFiles(object):
         return False
 
 
-def forms(lines, final_newline, tmp=None):
+def forms(lines, final_newline, tmp=None, codecs=()):
+    """[(name, factory, is a file object?, codec of a non-UTF-8 text layer or None)]"""
     text = "\n".join(lines) + ("\n" if final_newline else "")
     raw = text.encode("utf-8")
     with_nl = [l + "\n" for l in lines]
@@ -211,19 +371,32 @@ def forms(lines, final_newline, tmp=None):
         with_nl[-1] = with_nl[-1][:-1]
     raw_nl = [l.encode("utf-8") for l in with_nl]
     out = [
-        ("str", lambda: text),
-        ("bytes", lambda: raw),
-        ("lines+nl", lambda: list(with_nl)),
-        ("lines", lambda: list(lines)),
-        ("byteslines+nl", lambda: list(raw_nl)),
-        ("StringIO", lambda: io.StringIO(text)),
-        ("BytesIO", lambda: io.BytesIO(raw)),
-        ("TextIOWrapper", lambda: io.TextIOWrapper(io.BytesIO(raw), encoding="utf-8")),
+        ("str", lambda: text, False, None),
+        ("bytes", lambda: raw, False, None),
+        ("lines+nl", lambda: list(with_nl), False, None),
+        ("lines", lambda: list(lines), False, None),
+        ("byteslines+nl", lambda: list(raw_nl), False, None),
+        ("StringIO", lambda: io.StringIO(text), True, None),
+        ("BytesIO", lambda: io.BytesIO(raw), True, None),
+        ("TextIOWrapper", lambda: io.TextIOWrapper(io.BytesIO(raw), encoding="utf-8"), True, None),
     ]
-    if tmp is not None and tmp.enabled:
+    files = tmp is not None and tmp.enabled
+    if files:
         path = tmp.store(raw)
-        out.append(("text-file", lambda: tmp.open(path, False)))
-        out.append(("binary-file", lambda: tmp.open(path, True)))
+        out.append(("text-file", lambda: tmp.open(path, False), True, None))
+        out.append(("binary-file", lambda: tmp.open(path, True), True, None))
+    # text-mode file objects whose codec is not UTF-8: the text layer hands out str lines
+    for codec in codecs:
+        try:
+            enc = text.encode(codec)
+        except UnicodeEncodeError:
+            continue                        # an 8-bit codec that cannot express this document
+        out.append(("TextIOWrapper/" + codec,
+                    lambda enc=enc, codec=codec: io.TextIOWrapper(io.BytesIO(enc), encoding=codec), True, codec))
+        if files:
+            cpath = tmp.store(enc)
+            out.append(("text-file/" + codec,
+                        lambda cpath=cpath, codec=codec: tmp.open(cpath, False, codec), True, codec))
     return out
 
 
@@ -249,25 +422,51 @@ def symptom(expected, got):
     return "continuation-lines"
 
 
-def read_all(lines, final_newline, expected, single, gpg_classes, tmp=None):
-    """All readings of one document that differ from ``expected``: [(reader, form, got)]."""
+def _advanced(make, k):
+    """The file object with its first k lines already taken by the caller."""
+    f = make()
+    for _ in range(k):
+        f.readline()
+    return f
+
+
+def read_all(lines, final_newline, expected, single, gpg_classes, tmp=None, codecs=(), cuts=()):
+    """All readings of one document that differ from what they must give: [(reader, form, got, want)]."""
     bad = []
-    for fname, make in forms(lines, final_newline, tmp):
+    for fname, make, is_file, codec in forms(lines, final_newline, tmp, codecs):
         got = [_items(p) for p in Deb822.iter_paragraphs(make())]
         if got != expected:
-            bad.append(("iter_paragraphs", fname, got))
+            bad.append(("iter_paragraphs", fname, got, expected))
         if single:
-            readers = [("Deb822", Deb822)]
-            if gpg_classes:
-                readers += [("Dsc", Dsc), ("Changes", Changes)]
-            for rname, cls in readers:
-                got = [_items(cls(make()))]
+            readers = [("Deb822", Deb822, {})]
+            if gpg_classes and codec is None:
+                readers += [("Dsc", Dsc, {}), ("Changes", Changes, {})]
+            elif gpg_classes and codec in SINGLE_BYTE:
+                readers += [("Dsc(encoding=)", Dsc, {"encoding": codec}),
+                            ("Changes(encoding=)", Changes, {"encoding": codec})]
+            for rname, cls, kw in readers:
+                got = [_items(cls(make(), **kw))]
                 if got != expected:
-                    bad.append((rname, fname, got))
+                    bad.append((rname, fname, got, expected))
+        if is_file:
+            # a file object is read from where it stands
+            for k, skipped in cuts:
+                got = [_items(p) for p in Deb822.iter_paragraphs(_advanced(make, k))]
+                if got != expected[skipped:]:
+                    bad.append(("iter_paragraphs", "%s after %d x readline()" % (fname, k), got, expected[skipped:]))
+                if len(expected) - skipped == 1:
+                    got = [_items(Deb822(_advanced(make, k)))]
+                    if got != expected[skipped:]:
+                        bad.append(("Deb822", "%s after %d x readline()" % (fname, k), got, expected[skipped:]))
     return bad
 
 
 def check(case):
+    spec = None
+    if isinstance(case, dict) and case.get("kind") == "aligned":
+        if not valid_aligned(case):
+            return (False, ("invalid-or-out-of-domain-case-skipped",))
+        spec, case = case, expand_aligned(case)
     if not valid_case(case):
         return (False, ("invalid-or-out-of-domain-case-skipped",))
     paras = case["paras"]
@@ -313,19 +512,20 @@ def check(case):
         para_lines.append(ls)
 
     single = len(paras) == 1
+    codecs = lay.get("codecs", [])
     has_comments = bool(lay["lead_free"]) or any(p["comments"] for p in paras) or \
         (len(paras) > 1 and any(s["free"] for s in lay["seps"]))
     has_armor = any(p["armor"] is not None for p in paras)
-    plain, plain_nl = assemble(case, para_lines, False, False, False)
-    full, full_nl = assemble(case, para_lines, True, True, True)
+    plain, plain_nl, plain_cuts = assemble(case, para_lines, False, False, False)
+    full, full_nl, full_cuts = assemble(case, para_lines, True, True, True)
 
     regen = None
     with warnings.catch_warnings(record=True) as caught, TmpFiles(bool(lay.get("files"))) as tmp:
         warnings.simplefilter("always")
-        bad0 = read_all(plain, plain_nl, expected, single, True, tmp)
+        bad0 = read_all(plain, plain_nl, expected, single, True, tmp, codecs, plain_cuts)
         bad1 = []
         if (full, full_nl) != (plain, plain_nl):
-            bad1 = read_all(full, full_nl, expected, single, not lay["lead_free"], tmp)
+            bad1 = read_all(full, full_nl, expected, single, not lay["lead_free"], tmp, codecs, full_cuts)
         if bad0 or bad1:
             scope = _scope(case, para_lines, expected, single, bad0, bad1)
         else:
@@ -337,13 +537,13 @@ def check(case):
                 regen = (second, got2)
     if scope is not None:
         which, bad, lines, nl = ("plain", bad0, plain, plain_nl) if bad0 else ("configured", bad1, full, full_nl)
-        rname, fname, got = bad[0]
+        rname, fname, got, want = bad[0]
         text = "\n".join(lines) + ("\n" if nl else "")
-        raise Violation("%s/%s" % (symptom(expected, got), scope),
+        raise Violation("%s/%s" % (symptom(want, got), scope),
                         "%s document %s read by %s as %s gives %s, expected %s (%d of the readings of this "
-                        "document differ: %s)" % (which, short(text, 400), rname, fname, short(got, 400),
-                                                  short(expected, 400), len(bad),
-                                                  short(sorted(set("%s/%s" % (r, f) for r, f, _ in bad)), 300)))
+                        "document differ: %s)" % (which, _excerpt(text), rname, fname, short(got, 400),
+                                                  short(want, 400), len(bad),
+                                                  short(sorted(set("%s/%s" % (b[0], b[1]) for b in bad)), 300)))
     if regen is not None:
         raise Violation("%s/second-generation" % symptom(expected, regen[1]),
                         "paragraphs read back, dumped again as %s and re-read give %s, expected %s"
@@ -410,23 +610,61 @@ def check(case):
         labels.append("plain-only")
     if lay.get("files"):
         labels.append("real-files")
+    gap_ws = [l for l in full if l != "" and l.strip(G.BLANKS) == ""]
+    if gap_ws:
+        labels.append("whitespace-only-gap-line")
+        if has_armor:
+            labels.append("whitespace-only-gap-line+armor")
+        if full[0] in gap_ws:
+            labels.append("whitespace-only-first-line")
+    full_text = "\n".join(full)
+    for c in codecs:
+        try:
+            full_text.encode(c)
+            labels.append("text-file-codec:" + c)
+        except UnicodeEncodeError:
+            labels.append("text-file-codec-not-applicable")
+    if plain_cuts or full_cuts:
+        labels.append("file-object-advanced-by-readline")
+    if spec is not None:
+        labels.append("big-document")
+        labels.append("aligned:%s/%s" % (spec["target"], spec["measure"])
+                      if aligned_as_specified(spec, "\n".join(plain) + "\n") else "alignment-lost")
     return (multiline or len(paras) >= 2, labels)
+
+
+def _excerpt(text):
+    return short(text, 400) if len(text) <= 4000 else "of %d characters (%s)" % (len(text), short(text, 200))
 
 
 def _scope(case, para_lines, expected, single, bad0, bad1):
     """Name the configuration dimension a failure depends on (part of the signature)."""
     def gpg_only(bad):
-        return all(r in ("Dsc", "Changes") for r, _, _ in bad)
+        return all(b[0].startswith(("Dsc", "Changes")) for b in bad)
+
+    def kind(bad):
+        # what the differing readings have in common, from the most general form downwards
+        names = [b[1] for b in bad]
+        if any(f == "str" for f in names):
+            return None
+        if all("readline()" in f for f in names):
+            return "advanced-file-object"
+        if all("/" in f.split(" ")[0] for f in names):
+            return "text-file-codec"
+        return "form-dependent"
+    codecs = case["layout"].get("codecs", [])
     if bad0:
-        if any(r == "iter_paragraphs" and f == "str" for r, f, _ in bad0):
+        if any(b[0] == "iter_paragraphs" and b[1] == "str" for b in bad0):
             return "plain"
-        return "gpg-class" if gpg_only(bad0) else "form-dependent"
+        return "gpg-class" if gpg_only(bad0) else kind(bad0) or "form-dependent"
     suffix = "+gpg-class" if gpg_only(bad1) else ""
+    if kind(bad1) in ("advanced-file-object", "text-file-codec"):
+        suffix += "+" + kind(bad1)
     gpg = not case["layout"]["lead_free"]
     for name, flags in (("layout", (True, False, False)), ("comments", (False, True, False)),
                         ("armor", (False, False, True))):
-        lines, nl = assemble(case, para_lines, *flags)
-        if read_all(lines, nl, expected, single, gpg):
+        lines, nl, cuts = assemble(case, para_lines, *flags)
+        if read_all(lines, nl, expected, single, gpg, None, codecs, cuts):
             return name + suffix
     return "combination" + suffix
 
@@ -460,6 +698,49 @@ def enum_cases():
                              {"fields": [["a" + ch + ch, ["#", []]]], "comments": [[i % 2, ""]],
                               "armor": BASIC_ARMOR if i % 2 else None}],
                    "layout": plain}
+    return gen
+
+
+WS3 = ["", " ", "\t"]
+
+
+def enum_gaps():
+    """Every way of building the gaps of a two-paragraph document from 0..2 leading and 1..3
+    separating blank lines, each empty, one SPACE or one TAB; plain and clearsigned."""
+    p1 = [["A", ["1", []]], ["B", ["", [" x", "\ty"]]]]
+    p2 = [["C", ["\xe9", []]], ["D", [": 2", [" ."]]]]
+
+    def gen():
+        for armor in (None, BASIC_ARMOR):
+            for nlead in range(0, 3):
+                for lead in itertools.product(WS3, repeat=nlead):
+                    for ngap in range(1, 4):
+                        for gap in itertools.product(WS3, repeat=ngap):
+                            yield {"paras": [{"fields": p1, "comments": [], "armor": armor},
+                                             {"fields": p2, "comments": [], "armor": armor}],
+                                   "layout": dict(PLAIN_LAYOUT, lead=nlead, ws=list(lead + gap),
+                                                  seps=[{"blank": ngap, "free": [], "blank2": 1}])}
+            # one paragraph (all four readers): leading and trailing blank lines
+            for nlead in range(1, 3):
+                for lead in itertools.product(WS3, repeat=nlead):
+                    for trail in itertools.product(WS3, repeat=2):
+                        yield {"paras": [{"fields": p1, "comments": [], "armor": armor}],
+                               "layout": dict(PLAIN_LAYOUT, lead=nlead, trail=2, ws=list(lead + trail))}
+    return gen
+
+
+def enum_aligned(tier):
+    def gen():
+        shapes = [(4096, 36), (1024, 140)]          # 144 / 140 KiB: block sizes 1 KiB .. 128 KiB
+        if tier == "thorough":
+            shapes += [(1000, 140), (5000, 30), (8192, 130)]                   # the last one: 1 MiB
+        for unit, n in shapes:
+            for measure in ("bytes", "chars"):
+                for target in ALIGN_TARGETS:
+                    if measure == "chars" and target == "mid-character":
+                        continue
+                    yield {"kind": "aligned", "unit": unit, "n": n, "target": target, "measure": measure,
+                           "codecs": ["utf-16"] if measure == "chars" else []}
     return gen
 
 
@@ -508,13 +789,22 @@ def gen_case(draw):
               "seps": seps,
               "trail": draw(st.sampled_from([0, 0, 1, 2])),
               "final_newline": draw(st.sampled_from([True, True, True, False])),
-              "files": draw(st.sampled_from([False] * 7 + [True]))}
+              "files": draw(st.sampled_from([False] * 7 + [True])),
+              # blank lines of the layout: all empty (half of the cases) or empty / SPACE / TAB runs
+              "ws": draw(st.one_of(st.just([]), st.lists(st.sampled_from(["", "", " ", "\t", " \t", "  "]),
+                                                         min_size=1, max_size=6))),
+              "codecs": draw(st.sampled_from([[], [], [], ["utf-16"], ["utf-16"], ["iso-8859-15"], ["cp1252"],
+                                              ["utf-32"], ["utf-8-sig"], ["utf-16-le"], ["utf-16-be", "iso-8859-1"]]))}
     return {"paras": paras, "layout": layout}
 
 
 def sources(tier):
     if tier == "quick":
-        return [Enum("boundary-values", enum_cases(), EXHAUSTIVE["quick"]),
+        return [Enum("boundary-values", enum_cases(), _EXH),
+                Enum("blank-line-gaps", enum_gaps(), _EXH_GAPS),
+                Enum("aligned-big-documents", enum_aligned("quick"), _EXH_BIG),
                 Hyp("documents", gen_case(), 600, shards=10)]
-    return [Enum("boundary-values", enum_cases(), EXHAUSTIVE["thorough"]),
+    return [Enum("boundary-values", enum_cases(), _EXH),
+            Enum("blank-line-gaps", enum_gaps(), _EXH_GAPS),
+            Enum("aligned-big-documents", enum_aligned("thorough"), _EXH_BIG_T),
             Hyp("documents", gen_case(), 4000, shards=16)]
